@@ -1060,6 +1060,74 @@ def restore_loop_targets(fn, ref_loops, known_locals):
   return fn
 
 
+class _Blank(ast.NodeTransformer):
+  def visit_Name(self, n):
+    # module / builtin roots keep their names (tf, np, len ...): only what
+    # can be a local is blanked
+    if n.id in ('tf', 'np', 'math', 'keras', 'six', 'utils', 'len', 'range',
+                'list', 'tuple', 'int', 'float', 'isinstance', 'zip',
+                'enumerate', 'sorted', 'set', 'dict', 'str', 'bool', 'any',
+                'all', 'max', 'min', 'sum', 'abs', 'self'):
+      return n
+    return ast.copy_location(ast.Name(id='_', ctx=n.ctx), n)
+
+
+def def_shapes(fn):
+  """{local: [shape of each simple definition, in document order]} where a
+  shape is the statement with every local name blanked"""
+  out = {}
+
+  def walk(n):
+    for f in ('body', 'orelse', 'handlers', 'finalbody'):
+      for st in getattr(n, f, []) or []:
+        if isinstance(st, (ast.Assign, ast.AugAssign)):
+          t = st.targets[0] if isinstance(st, ast.Assign) else st.target
+          if isinstance(t, ast.Name) and (isinstance(st, ast.AugAssign) or
+                                          len(st.targets) == 1):
+            sh = ast.unparse(_Blank().visit(copy.deepcopy(st)))
+            out.setdefault(t.id, []).append(sh)
+        if not isinstance(st, (ast.FunctionDef, ast.ClassDef)):
+          walk(st)
+  walk(fn)
+  return out
+
+
+def restore_renamed_locals(fn, ref_shapes, known_locals):
+  """a reference local that is no longer assigned and a new local whose
+  definitions have exactly the same shapes (and no other candidate on either
+  side) are the same variable under a new name: the reference name is put
+  back"""
+  if not ref_shapes:
+    return fn
+  for _ in range(6):
+    cur = def_shapes(fn)
+    params = {a.arg for a in ast.walk(fn.args) if isinstance(a, ast.arg)}
+    used = {n.id for n in ast.walk(fn) if isinstance(n, ast.Name)}
+    vanished = {l: tuple(sh) for l, sh in ref_shapes.items()
+                if l not in used and l not in params}
+    fresh = {u: tuple(sh) for u, sh in cur.items()
+             if u not in known_locals and u not in params}
+    done = False
+    for l, sh in sorted(vanished.items()):
+      cands = [u for u, s2 in fresh.items() if s2 == sh]
+      rivals = [l2 for l2, s2 in vanished.items() if s2 == sh]
+      if len(cands) == 1 and len(rivals) == 1:
+        u = cands[0]
+        # every store of u must be one of those simple definitions
+        stores = sum(1 for n in ast.walk(fn) if isinstance(n, ast.Name) and
+                     n.id == u and isinstance(n.ctx, (ast.Store, ast.Del)))
+        if stores != len(sh):
+          continue
+        for n in ast.walk(fn):
+          if isinstance(n, ast.Name) and n.id == u:
+            n.id = l
+        done = True
+        break
+    if not done:
+      break
+  return fn
+
+
 def flat_form(fn):
   """the statements of a function in normal form, one string per simple
   statement / compound header (docstrings dropped): the unit in which the
@@ -1125,6 +1193,7 @@ def normalise_module(modname, tree):
       before = local_names(fn)
       if before - known:
         restore_loop_targets(fn, inv[q].get('loops'), known)
+        restore_renamed_locals(fn, inv[q].get('defs'), known)
         split_tuple_assignments(fn)
         expand_kwargs_dicts(fn, known)
         coalesce_copies(fn, known)
